@@ -234,6 +234,14 @@ class Explorer:
                 sigs.append(r['verdict']['observed'])
         if not (sigs[0] == sigs[1] == v['observed']):
             self.flaky.append({'key': script.get('key'), 'first': v['observed'], 'replays': sigs})
+            try:
+                d = os.path.join(OUT, 'replays', self.prop)
+                os.makedirs(d, exist_ok=True)
+                with open(os.path.join(d, 'flaky_' + digest16(self.prop, script.get('key', '')) + '.json'), 'w') as f:
+                    json.dump({'property': self.prop, 'flaky': True, 'script_key': script.get('key'), 'first': v,
+                               'first_observation': res.get('obs'), 'replay_signatures': sigs, 'script': script}, f, indent=1)
+            except OSError:
+                pass
             return
         self.unlisted_total += 1
         cls = v['class']
